@@ -1439,6 +1439,34 @@ func genC12b(g *Gen) {
 		}
 		g.Case("bld", J{"ops": ops})
 	}
+	// segments with dozens of positions (32..200) at word-aligned offsets (sizes that are multiples of 64), after a
+	// segment whose last position overshoots its size by one word and more: bulk paths for long aligned segments
+	for h := 0; h < g.N(80, 2500); h++ {
+		ops := []J{{"k": "BNew", "n": []int{0, 0, 64, 1000}[r.Intn(4)]}}
+		segs := 2 + r.Intn(4)
+		for i := 0; i < segs; i++ {
+			size := int64(64 * (1 + r.Intn(4)))
+			if r.Intn(4) == 0 {
+				size += int64(r.Intn(64)) // sometimes unaligned afterwards
+			}
+			pos := []int64{}
+			dense := r.Intn(3) != 0
+			for p := int64(r.Intn(3)); p < size; p += 1 + int64(r.Intn(3)) {
+				if dense || r.Intn(8) == 0 {
+					pos = append(pos, p)
+				}
+			}
+			over := i < segs-1 && r.Intn(2) == 0
+			if over || (i == segs-1 && r.Intn(2) == 0) {
+				pos = append(pos, size+int64(64*r.Intn(3))+int64(r.Intn(64))) // beyond the size, up to 3 words on
+			}
+			ops = append(ops, J{"k": "BExtend", "pos": pos, "size": size})
+			if over {
+				// what follows is no longer "ascending shifted positions" (the machine, not the Of equivalence, judges it)
+			}
+		}
+		g.Case("bld", J{"ops": ops})
+	}
 	// growth by a thousand words and more in ONE call: Extend with sizes of 2^16 .. 2^22 bits or a far position,
 	// Set far beyond the end; before and after smaller steps
 	for h := 0; h < g.N(24, 600); h++ {
